@@ -902,3 +902,74 @@ pub fn gen_variant(base: &Program, tape: &[u16], prof: &Profile) -> Program {
     p.layout = t.pick(1 << 15) as u32;
     p
 }
+
+/// A minimal edit of `base` (C12): the arguments of ONE atom are permuted among positions of the same
+/// type (or one `then p(..)` atom is duplicated with permuted arguments). Declarations, rule names, the
+/// relations each rule reads and writes stay the same, so in a component build the generated MODULE text
+/// is often byte-identical and only one component source changes - the edit a "nothing changed" shortcut
+/// would miss.
+pub fn gen_small_edit(base: &Program, tape: &[u16]) -> Program {
+    let mut t = Tape::new(tape);
+    let mut p = base.clone();
+    // collect (rule, path) of predicate atoms with two argument positions of the same type
+    fn sites(p: &Program, stmts: &[Stmt], rule: usize, path: &mut Vec<usize>, out: &mut Vec<(usize, Vec<usize>)>) {
+        for (i, s) in stmts.iter().enumerate() {
+            path.push(i);
+            match s {
+                Stmt::If(IfAtom::Pred(r, _)) | Stmt::Then(ThenAtom::Pred(r, _)) => {
+                    let cols = &p.rels[*r].cols;
+                    if (0..cols.len()).any(|a| (a + 1..cols.len()).any(|b| cols[a] == cols[b])) {
+                        out.push((rule, path.clone()));
+                    }
+                }
+                Stmt::Branch(bs) => {
+                    for (bi, b) in bs.iter().enumerate() {
+                        path.push(bi);
+                        sites(p, b, rule, path, out);
+                        path.pop();
+                    }
+                }
+                Stmt::Match(_, cs) => {
+                    for (ci, c) in cs.iter().enumerate() {
+                        path.push(ci);
+                        sites(p, &c.body, rule, path, out);
+                        path.pop();
+                    }
+                }
+                _ => {}
+            }
+            path.pop();
+        }
+    }
+    let mut all = Vec::new();
+    for ri in 0..p.rules.len() {
+        let mut path = Vec::new();
+        sites(&p, &p.rules[ri].body, ri, &mut path, &mut all);
+    }
+    if all.is_empty() {
+        return p;
+    }
+    let (ri, path) = all[t.pick(all.len())].clone();
+    fn at<'a>(stmts: &'a mut Vec<Stmt>, path: &[usize]) -> Option<&'a mut Stmt> {
+        let s = stmts.get_mut(path[0])?;
+        if path.len() == 1 {
+            return Some(s);
+        }
+        match s {
+            Stmt::Branch(bs) => at(bs.get_mut(path[1])?, &path[2..]),
+            Stmt::Match(_, cs) => at(&mut cs.get_mut(path[1])?.body, &path[2..]),
+            _ => None,
+        }
+    }
+    let rels = p.rels.clone();
+    if let Some(stmt) = at(&mut p.rules[ri].body, &path) {
+        if let Stmt::If(IfAtom::Pred(r, args)) | Stmt::Then(ThenAtom::Pred(r, args)) = stmt {
+            let cols = &rels[*r].cols;
+            let pairs: Vec<(usize, usize)> = (0..cols.len()).flat_map(|a| (a + 1..cols.len()).filter(move |&b| cols[a] == cols[b]).map(move |b| (a, b))).collect();
+            let (a, b) = pairs[t.pick(pairs.len())];
+            args.swap(a, b);
+        }
+    }
+    p.layout = base.layout;
+    p
+}
